@@ -27,7 +27,7 @@ func c20Lens() []int {
 	if verifrt.Thorough() {
 		return []int{0, 1, 2, 3, 5, 9, 12, 16, 24}
 	}
-	return []int{0, 1, 3, 9, 12}
+	return []int{0, 1, 3, 9}
 }
 
 // VerifHarness_C20_client decodes L symbolic bytes as the payload of every
@@ -45,7 +45,7 @@ func VerifHarness_C20_client() {
 		err = payload.Deserialize(bytes.NewReader(data))
 	})
 	verifrt.Note("type %d (%s) len %d: panic=%v %s err=%v", t, NameForMessageType(t), n, panicked, what, err)
-	verifrt.Sig(NameForMessageType(t), "panic", what)
+	verifrt.Sig("panic in", verifrt.PanicSite(), what, "decoding", NameForMessageType(t))
 	verifrt.Assert(!panicked, "C20.decode.no-panic")
 	verifrt.Reach("C20.client.done")
 }
